@@ -233,11 +233,13 @@ def _one_rewrite_per_line_rule(ctx, res) -> None:
     the handler) whose true edge only raises a rope error, and the line is added to that record."""
     idx = ctx.idx
     f = idx.need_func("rope.refactor.inline._InlineFunctionCallsForModuleHandle.occurred_outside_skip")
-    cfg = CFG(f.node)
+    from . import common as _common
+    fnode = _common.inlined(idx, f)  # (the rewriting part may live in a private step of the handler)
+    cfg = CFG(fnode)
     adds = [nd for nd in cfg.nodes if nd.kind == "stmt" and nd.ast is not None and any(call_name(c) == "add_change" for c in calls_in(nd.ast))]
     if not adds:
         raise AnalysisError("anchor=occurred_outside_skip: no add_change")
-    records = {c.func.value.attr for c in calls_in(f.node) if isinstance(c.func, ast.Attribute) and c.func.attr == "add" and is_self_attr(c.func.value)}
+    records = {c.func.value.attr for c in calls_in(fnode) if isinstance(c.func, ast.Attribute) and c.func.attr == "add" and is_self_attr(c.func.value)}
     refusing = None
     for t in cfg.nodes:
         if t.kind == "test" and isinstance(t.ast, ast.Compare) and len(t.ast.ops) == 1 and isinstance(t.ast.ops[0], ast.In) \
